@@ -67,7 +67,7 @@ MORE['C18'] = dict(
           "together with the presence of the invitation, key-generation and signing parts through every run; no_panic_of_inv). Props/C18Node.lean: node_never_panics_run (from an empty state database, after ANY sequence of messages - genuine, forged, junk, duplicated, "
           "any number of rounds - handling any further message ends with ok or a rejection; nodeOK_step: every dump the node stores restores to an instance satisfying the invariants). Props/C18.lean: reject_is_noop, top_reject_is_noop (every unsuccessful end leaves rounds, "
           "pool, tombstones and signature store the value they were), exec_refused_is_noop, approve_refused_is_noop, verify_never_panics, expansion_never_panics (TasksToMessages ends with a list or an error for every task list, reversed / negative / astronomically large ranges included), "
-          "panic_only_from_callbacks. Props/C18Reinit.lean: node_never_panics_run_reinit (the same with re-initialisation requests anywhere in the history: no step of any replay panics; nodeOK_reinit). Props/C18Air.lean, over facts the translator reads off airgapped.go on every run (Gen/AirGlue.lean): order_in_source_air (the operation is handled, then logged, then the result file is opened), fatal_leaves_log / fatal_then_restart (an operation that fails fatally writes nothing durable: a restart rebuilds what it would have rebuilt before), log_first_poisons_replay (with the log written first one malformed file makes every later replay fail: explicit witness), dispatch_recovers (a panic in a handler becomes a handler error), handled_have_error_event, error_events_accepted (the error event of every dispatched operation type is a public row of the generated tables in the state the operation is issued in), replay_does_not_log. In the models a Go panic is the explicit outcome `panic`; that the models place it exactly where the Go code can panic is tied by fsmdiff/nodediff (every panic of the real code under recover() is compared). Not modelled beyond that: the re-initialisation "
+          "panic_only_from_callbacks. Props/C18Reinit.lean: node_never_panics_run_reinit (the same with re-initialisation requests anywhere in the history: no step of any replay panics; nodeOK_reinit). Props/C18ReinitReject.lean, rejected input is a no-op for re-initialisation files: pinned_blank_id_left_an_operation (the pinned handler refused a file without a round id AFTER storing its operation: fix cb0dd08), blank_id_refused_without_effect, refusal_is_noop_or_duplicate, reachable_inv and rejected_reinit_on_a_reachable_node (from an empty database, after any messages and files: a refused file leaves the node as it was unless the refusal is the pool's 'pending already'). Props/C18Air.lean, over facts the translator reads off airgapped.go on every run (Gen/AirGlue.lean): order_in_source_air (the operation is handled, then logged, then the result file is opened), fatal_leaves_log / fatal_then_restart (an operation that fails fatally writes nothing durable: a restart rebuilds what it would have rebuilt before), log_first_poisons_replay (with the log written first one malformed file makes every later replay fail: explicit witness), dispatch_recovers (a panic in a handler becomes a handler error), handled_have_error_event, error_events_accepted (the error event of every dispatched operation type is a public row of the generated tables in the state the operation is issued in), replay_does_not_log. In the models a Go panic is the explicit outcome `panic`; that the models place it exactly where the Go code can panic is tied by fsmdiff/nodediff (every panic of the real code under recover() is compared). Not modelled beyond that: the re-initialisation "
           "handler, the answer path's write of the public polynomial into a round without key-generation data, and the airgapped handlers (kyber, ECIES), which are covered by fault injection on the real machine: airdiff. Tie: nodediff (every mutation kind incl. junk rounds, "
           "unknown events, garbage, negative ids, replays, cancelled-and-restarted signing rounds; byte-exact state comparison after every rejected message; signed signing proposals with negative, reversed "
           "and out-of-list ranges; structure-aware JSON variants of every payload, signed by the sender: each field null / of another type / missing / out-of-range number, nulls inside arrays, a second "
